@@ -1,7 +1,7 @@
 /-
   Oracle commands for C12 (crash model of the model store).
 
-    effects <store> <hashes> <chunk> <am> <ap> <op>  → the operation's effect list + outcome
+    effects <store> <hashes> <chunk> <am> <ap> <np> <op>  → the operation's effect list + outcome
       (<am>/<ap> = 1: the tree writes manifests / part records atomically — detected by the driver from the real trace)
     crash <k> <store> <hashes> <chunk> <op>    → the store after the first k effects
     restart <store>                            → the store after the start-up sequence
@@ -79,14 +79,15 @@ def insertSorted (x : String) : List String → List String
 
 def sortDedup (l : List String) : List String := l.foldr insertSorted []
 
-def mkEnv (hs : List (Bytes × Digest)) (k : Nat) (am ap : Bool) : Env :=
+def mkEnv (hs : List (Bytes × Digest)) (k : Nat) (am ap np : Bool) : Env :=
   { hash := fun bs => match hs.find? (fun e => e.1 == bs) with
       | some e => e.2
       | none => "?" ++ hexOrDash bs
     chunk := chunksOf k
     ord := sortDedup
     atomicMan := am
-    atomicPart := ap }
+    atomicPart := ap
+    noPrune := np }
 
 def pBlob : TP (Digest × Bytes) := do let d ← tok; let b ← hex; pure (d, b)
 
@@ -180,8 +181,9 @@ def pJob : TP Job := do
   let k ← nat
   let am ← nat
   let ap ← nat
+  let np ← nat
   let op ← pOp
-  pure ⟨st, mkEnv hs k (am != 0) (ap != 0), op⟩
+  pure ⟨st, mkEnv hs k (am != 0) (ap != 0) (np != 0), op⟩
 
 def handle (toks : List String) : Option String :=
   match toks with
@@ -198,7 +200,7 @@ def handle (toks : List String) : Option String :=
   | "rerun" :: k :: rest => do
     let k ← k.toNat?
     let j ← runTP pJob rest
-    let st1 := restart (run ((j.op.exec j.env j.st).effs.take k) j.st)
+    let st1 := restartWith j.env (run ((j.op.exec j.env j.st).effs.take k) j.st)
     let r := j.op.exec j.env st1
     pure ((if r.ok then "ok " else "fail ") ++ showReadable (run r.effs st1))
   | _ => none
